@@ -133,7 +133,7 @@ def required(tier):
             "kind:wht", "kind:pca", "kind:wht_tiny", "container:np", "container:dask", "cplx:True", "cplx:False",
             "alpha:0", "alpha:1", "alpha:mid", "nmodes:int", "nmodes:float", "nmodes:all", "pca:use_pca_False",
             "pca_backend:svd", "pca_backend:randomized_svd", "pca_backend:svd_compressed", "pca_backend:svds",
-            "pca:subspace_judged", "pca:truncated", "pca:full", "cond:1", "cond:1e6",
+            "pca:subspace_judged", "pca:truncated", "pca:full", "cond:1", "cond:1e6", "history:aged", "history:fresh",
         ],
         "max_refused_share": 0.2,
     }
@@ -237,6 +237,11 @@ def cases(tier, seed):
             c = _wht_case(r(), alpha, False, "np", 2)
             c.update(kind="wht_tiny", scale_exp=se)
             out.append(c)
+    # many features (>= 500): size thresholds inside the matrix-function code
+    for j, pbig in enumerate((500, 512) if tier == "quick" else (500, 501, 512, 600, 499, 520)):
+        c = _wht_case(r(), (0.0, 0.5)[j % 2 if j >= 2 else 0], False, "np", 1)
+        c.update(p=pbig, n=pbig + 30, m=2)
+        out.append(c)
     mult = 1 if tier == "quick" else 25
     for j in range(450 * mult):
         out.append(_wht_case(gen.rng_for(seed, 16, 1, j)))
@@ -315,6 +320,36 @@ def drain(obs, advisory=False):
 
 
 # --------------------------------------------------------------------------- whitener
+def _aged(obs, case, obj, da, fresh):
+    """every third case: the transformer object has been fitted on other data (another covariance) and all of its
+    maps have been used before the fit that is judged"""
+    if case["dseed"] % 3 != 0:
+        obs.cell("history:fresh")
+        return obj
+    try:
+        with warnings.catch_warnings():
+            warnings.simplefilter("ignore")
+            oth = da.roll(sample=1, roll_coords=False) * 1.3 + 0.2 * da * da
+            Yo = obj.fit_transform(oth)
+            for nm in ("inverse_transform_data", "inverse_transform_scores", "transform"):
+                try:
+                    getattr(obj, nm)(Yo if nm != "transform" else oth)
+                except Exception:  # noqa: BLE001
+                    pass
+            P = oth.isel(sample=slice(0, 2)).rename({"sample": "mode"}).assign_coords(mode=[1, 2])
+            for nm in ("transform_components", "inverse_transform_components"):
+                try:
+                    getattr(obj, nm)(P if nm == "transform_components" else getattr(obj, "transform_components")(P))
+                except Exception:  # noqa: BLE001
+                    pass
+        obs.cell("history:aged")
+        obs.tag(history="aged")
+        return obj
+    except Exception:  # noqa: BLE001  (the other data is unusable on its own account)
+        obs.count("aging_failed")
+        return fresh()
+
+
 def run_wht(case, obs, judge=True):
     from xeofs.preprocessing.whitener import Whitener
 
@@ -331,8 +366,9 @@ def run_wht(case, obs, judge=True):
     X, rng = build(case, lam)
     da = to_da(X, case)
     fco = da.coords["feature"].values
-    mon.reset()
     w = Whitener(alpha=alpha)
+    w = _aged(obs, case, w, da, lambda: Whitener(alpha=alpha))
+    mon.reset()
     with warnings.catch_warnings():
         warnings.simplefilter("ignore")
         Xw_da = w.fit_transform(da)
@@ -465,8 +501,9 @@ def run_pca(case, obs):
     kw = dict(n_modes=n_modes, use_pca=nm != "off", compute_eagerly=case["eager"], random_state=case["rs"])
     if nm == "float":
         kw["init_rank_reduction"] = case["irr"]
-    mon.reset()
     pca = PCA(**kw)
+    pca = _aged(obs, case, pca, da, lambda: PCA(**kw))
+    mon.reset()
     try:
         with warnings.catch_warnings():
             warnings.simplefilter("ignore")
